@@ -1740,11 +1740,15 @@ Definition c01_scope2 (ord : hord) (sw : switches) (dt : detection) : bool :=
 (* text proposed for Model/Scope.v: the run of shake_1 on every tree handed to it is safe; an
    identifier body optimised on its own starts with negative polarity as soon as the condition
    contains any negation (Known.body_neg) *)
+Definition entry_trees (e : expr) : list expr := match e with EGroup _ l => l | _ => [e] end.
 Definition run_safe (ord : hord) (sw : switches) (dt : detection) : bool :=
   let st := staged sw dt in
   shake1_safe ord false (shake_fuel (fst (shaken0 st))) (fst (shaken0 st)) &&
-  forallb (fun b : str * expr => shake1_safe ord (body_neg st) (shake_fuel (snd b)) (snd b))
-          (snd (shaken0 st)).
+  forallb (fun b : str * expr =>
+             forallb (fun x => let m := ok_or (shake0 (shake_fuel x) x) x in
+                               shake1_safe ord (body_neg st) (shake_fuel m) m)
+                     (entry_trees (snd b)))
+          (snd st).
 
 Lemma verdict_of_truth : forall (s' s : out res3),
   (exists a, s' = Ok a) -> (exists b, s = Ok b) -> (s' = Ok T <-> s = Ok T) ->
@@ -1789,6 +1793,174 @@ Proof.
     + rewrite (shake1_exact_run o ord _ b0 d Hperm Hw0 Hc0 Hs). tauto.
     + apply (shake1_truth_run o ord _ b0 d Hperm Hw0 Hc0 Hs).
   - intros ->. rewrite <- E0. apply (shake1_exact_run o ord _ b0 d Hperm Hw0 Hc0 Hs).
+Qed.
+
+(* ---- fix D15/D20: an identifier body is optimised entry by entry ---- *)
+(* member-wise related entries give related groups (and: truth from truth, exact from exact;
+   or: likewise) *)
+Lemma rel_of_solve : forall o (dq : docq), C03.npd dq -> forall (neg : bool) b b',
+  wf_body b = true -> wf_body b' = true ->
+  (if neg return Prop then solve_body o b' dq = solve_body o b dq
+   else (solve_body o b' dq = Ok T <-> solve_body o b dq = Ok T)) ->
+  rel neg (Vc o [] dq b') (Vc o [] dq b).
+Proof.
+  intros o dq Hd neg b b' Hw Hw' H.
+  pose proof (Vc_ok o [] eq_refl dq Hd b (C03.wf_body_cond_nil _ Hw)) as E.
+  pose proof (Vc_ok o [] eq_refl dq Hd b' (C03.wf_body_cond_nil _ Hw')) as E'.
+  change (solve_cond o [] b dq) with (solve_body o b dq) in E.
+  change (solve_cond o [] b' dq) with (solve_body o b' dq) in E'.
+  rewrite E, E' in H. destruct neg; cbn [rel].
+  - injection H as H. exact H.
+  - split; intros X.
+    + assert (Y : Ok (Vc o [] dq b) = Ok T) by (apply H; rewrite X; reflexivity).
+      injection Y as Y. exact Y.
+    + assert (Y : Ok (Vc o [] dq b') = Ok T) by (apply H; rewrite X; reflexivity).
+      injection Y as Y. exact Y.
+Qed.
+
+Lemma solve_of_rel : forall o (dq : docq), C03.npd dq -> forall neg b b',
+  wf_body b = true -> wf_body b' = true ->
+  rel neg (Vc o [] dq b') (Vc o [] dq b) ->
+  (solve_body o b' dq = Ok T <-> solve_body o b dq = Ok T) /\
+  (neg = true -> solve_body o b' dq = solve_body o b dq).
+Proof.
+  intros o dq Hd neg b b' Hw Hw' H.
+  pose proof (Vc_ok o [] eq_refl dq Hd b (C03.wf_body_cond_nil _ Hw)) as E.
+  pose proof (Vc_ok o [] eq_refl dq Hd b' (C03.wf_body_cond_nil _ Hw')) as E'.
+  change (solve_cond o [] b dq) with (solve_body o b dq) in E.
+  change (solve_cond o [] b' dq) with (solve_body o b' dq) in E'.
+  rewrite E, E'. split.
+  - destruct neg; cbn [rel] in H.
+    + rewrite H. tauto.
+    + split; intros X; injection X as X; f_equal; apply H; exact X.
+  - intros ->. cbn [rel] in H. rewrite H. reflexivity.
+Qed.
+
+Lemma group_rel_of_members : forall o (dq : docq), C03.npd dq -> forall neg s l l',
+  is_and_or s = true ->
+  (forall x, In x l -> wf_body x = true) -> (forall y, In y l' -> wf_body y = true) ->
+  Forall2 (fun x y => rel neg (Vc o [] dq y) (Vc o [] dq x)) l l' ->
+  rel neg (Vc o [] dq (EGroup s l')) (Vc o [] dq (EGroup s l)).
+Proof.
+  intros o dq Hd neg s l l' Hs Hw Hw' HF.
+  assert (HF2 : Forall2 (rel neg) (map (Vc o [] dq) l') (map (Vc o [] dq) l)).
+  { clear Hw Hw'. induction HF; cbn [map]; constructor; assumption. }
+  assert (W : forall x, In x l -> wf_cond [] x = true) by (intros x Hx; apply C03.wf_body_cond_nil; auto).
+  assert (W' : forall x, In x l' -> wf_cond [] x = true) by (intros x Hx; apply C03.wf_body_cond_nil; auto).
+  destruct s; try discriminate Hs.
+  - rewrite (Vc_and o [] eq_refl dq Hd l' W'), (Vc_and o [] eq_refl dq Hd l W). apply andl_cong. exact HF2.
+  - rewrite (Vc_or o [] eq_refl dq Hd l' W'), (Vc_or o [] eq_refl dq Hd l W). apply orl_cong; [discriminate|exact HF2].
+Qed.
+
+(* what `entries f` does to a body whose entries f maps to related trees *)
+Lemma entries_body_rel : forall o (dq : docq) (f : expr -> out expr) (P : expr -> Prop) neg b,
+  C03.npd dq -> wf_body b = true ->
+  (forall x, P x -> wf_body x = true -> exists y, f x = Ok y /\ wf_body y = true /\
+                                      rel neg (Vc o [] dq y) (Vc o [] dq x)) ->
+  (forall x, In x (entry_trees b) -> P x) ->
+  exists b2, entries f b = Ok b2 /\ wf_body b2 = true /\ rel neg (Vc o [] dq b2) (Vc o [] dq b).
+Proof.
+  intros o dq f P neg b Hd Hw Hf HP.
+  destruct (C01.entries_rel f (fun x => P x /\ wf_body x = true)
+              (fun x y => wf_body y = true /\ rel neg (Vc o [] dq y) (Vc o [] dq x)) b) as [b2 [Hb2 Hrel]].
+  - intros x [Px Wx]. exact (Hf x Px Wx).
+  - destruct b as [s l| | | | | | | | | | | | |]; cbn [entry_trees] in HP;
+      try (split; [apply HP; left; reflexivity|exact Hw]).
+    intros x Hx. split; [apply HP; exact Hx|exact (C01.wf_body_member _ _ _ Hw Hx)].
+  - exists b2. split; [exact Hb2|].
+    destruct b as [s l| | | | | | | | | | | | |]; try exact Hrel.
+    destruct Hrel as [l' [-> HF]]. pose proof (C01.wf_body_group _ _ Hw) as Hs.
+    assert (Hw' : forall y, In y l' -> wf_body y = true).
+    { intros y Hy. clear - HF Hy. induction HF as [|x0 y0 l0 l0' [Hy0 _] _ IH]; [destruct Hy|].
+      destruct Hy as [<-|Hy]; [exact Hy0|exact (IH Hy)]. }
+    split.
+    + cbn [wf_body]. change (is_and_or_op s) with (is_and_or s). rewrite Hs. cbn [andb].
+      apply C01.forallb_intro. exact Hw'.
+    + apply (group_rel_of_members o dq Hd neg s l l' Hs); [|exact Hw'|].
+      * intros x Hx. exact (C01.wf_body_member _ _ _ Hw Hx).
+      * eapply C01.Forall2_In_impl; [exact HF|]. intros x y _ _ [_ Hr]. exact Hr.
+Qed.
+
+(* the same on values, for passes whose result is not of the loader's shape (matrix): the
+   entries f maps to trees with related values give a body with a related value *)
+Lemma group_vals_rel : forall o (dq : docq) neg s l l', is_and_or s = true ->
+  Forall2 (fun x x' => exists v v', solve_body o x dq = Ok v /\ solve_body o x' dq = Ok v' /\ rel neg v' v) l l' ->
+  exists v v', solve_body o (EGroup s l) dq = Ok v /\ solve_body o (EGroup s l') dq = Ok v' /\ rel neg v' v.
+Proof.
+  intros o dq neg s l l' Hs HF.
+  assert (E : exists vs vs',
+            map (fun x (_ : unit) => solve_cond o [] x dq) l = map (fun v (_ : unit) => Ok ((fun r : res3 => r) v)) vs /\
+            map (fun x (_ : unit) => solve_cond o [] x dq) l' = map (fun v (_ : unit) => Ok ((fun r : res3 => r) v)) vs' /\
+            Forall2 (rel neg) vs' vs).
+  { induction HF as [|x x' l0 l0' (v & v' & E1 & E2 & R) _ (vs & vs' & I1 & I2 & I3)].
+    - exists [], []. repeat split; constructor.
+    - exists (v :: vs), (v' :: vs'). cbn [map].
+      change (solve_cond o [] x dq) with (solve_body o x dq).
+      change (solve_cond o [] x' dq) with (solve_body o x' dq).
+      rewrite E1, E2, I1, I2. repeat split. constructor; assumption. }
+  destruct E as (vs & vs' & E1 & E2 & R).
+  change (solve_body o (EGroup s l) dq) with (solve_cond o [] (EGroup s l) dq).
+  change (solve_body o (EGroup s l') dq) with (solve_cond o [] (EGroup s l') dq).
+  destruct s; try discriminate Hs.
+  - rewrite !S1.cs_group_and, E1, E2, !and_fold_pure, !map_id.
+    eexists. eexists. split; [reflexivity|]. split; [reflexivity|]. apply andl_cong. exact R.
+  - rewrite !S1.cs_group_or, E1, E2, !or_fold_pure, !map_id.
+    eexists. eexists. split; [reflexivity|]. split; [reflexivity|]. apply orl_cong; [discriminate|exact R].
+Qed.
+
+Lemma entries_vals_rel : forall o (dq : docq) neg (f : expr -> out expr) (P G : expr -> Prop) b b',
+  (forall s l, is_and_or s = true -> (forall y, In y l -> G y) -> G (EGroup s l)) ->
+  match b with EGroup s _ => is_and_or s = true | _ => True end ->
+  (forall x, In x (entry_trees b) -> P x) ->
+  (forall x x', P x -> f x = Ok x' ->
+     G x' /\ exists v v', solve_body o x dq = Ok v /\ solve_body o x' dq = Ok v' /\ rel neg v' v) ->
+  entries f b = Ok b' ->
+  G b' /\ exists v v', solve_body o b dq = Ok v /\ solve_body o b' dq = Ok v' /\ rel neg v' v.
+Proof.
+  intros o dq neg f P G b b' HG Hs HP Hf H. apply C01.entries_inv in H.
+  destruct b as [s l| | | | | | | | | | | | |]; cbn [entry_trees] in HP;
+    try (apply Hf; [apply HP; left; reflexivity|exact H]).
+  destruct H as [l' [-> HF]].
+  assert (HF2 : Forall2 (fun x x' => G x' /\ exists v v', solve_body o x dq = Ok v /\
+                                      solve_body o x' dq = Ok v' /\ rel neg v' v) l l').
+  { eapply C01.Forall2_In_impl; [exact HF|]. intros x x' Hx _ Hxx'. apply Hf; [apply HP; exact Hx|exact Hxx']. }
+  split.
+  - apply HG; [exact Hs|]. intros y Hy. clear - HF2 Hy.
+    induction HF2 as [|x0 y0 l0 l0' [Hy0 _] _ IH]; [destruct Hy|].
+    destruct Hy as [<-|Hy]; [exact Hy0|exact (IH Hy)].
+  - apply (group_vals_rel o dq neg s l l' Hs).
+    eapply C01.Forall2_In_impl; [exact HF2|]. intros x x' _ _ [_ Hr]. exact Hr.
+Qed.
+
+(* one identifier body through the shake pass, entry by entry *)
+Lemma shake_entries_run : forall o ord neg b (d : doc),
+  (forall l, Permutation (ord l) l) ->
+  wf_body b = true -> C01.sh0 b = true -> C01.no_dneg b = true -> C01.shx b = true ->
+  forallb (fun x => let m := ok_or (shake0 (shake_fuel x) x) x in
+                    shake1_safe ord neg (shake_fuel m) m) (entry_trees b) = true ->
+  exists b2, entries (shake ord) b = Ok b2 /\ wf_body b2 = true /\
+    (solve_body o b2 (pure_doc d) = Ok T <-> solve_body o b (pure_doc d) = Ok T) /\
+    (neg = true -> solve_body o b2 (pure_doc d) = solve_body o b (pure_doc d)).
+Proof.
+  intros o ord neg b d Hperm Hw H1 H2 H3 Hs.
+  pose proof (C03.npd_pure d) as Hd.
+  destruct (entries_body_rel o (pure_doc d) (shake ord)
+              (fun x => C01.sh0 x = true /\ C01.no_dneg x = true /\ C01.shx x = true /\
+                        shake1_safe ord neg (shake_fuel (ok_or (shake0 (shake_fuel x) x) x))
+                                    (ok_or (shake0 (shake_fuel x) x) x) = true)
+              neg b Hd Hw) as [b2 [Hb2 [W2 R2]]].
+  - intros x [X1 [X2 [X3 X4]]] Wx.
+    destruct (shake_body_run o ord neg x d Hperm Wx X1 X2 X3 X4) as [y [Hy [Wy [Ty Ey]]]].
+    exists y. split; [exact Hy|]. split; [exact Wy|].
+    apply (rel_of_solve o (pure_doc d) Hd neg x y Wx Wy). destruct neg; [apply Ey; reflexivity|exact Ty].
+  - intros x Hx. pose proof (C01.forallb_In _ _ _ Hs Hx) as Sx. cbn beta zeta in Sx.
+    destruct b as [s l| | | | | | | | | | | | |]; cbn [entry_trees] in Hx;
+      try (destruct Hx as [<-|[]]; auto).
+    cbn [C01.sh0] in H1.
+    split; [exact (C01.forallb_In _ _ _ H1 Hx)|]. split; [exact (C01.no_dneg_member _ _ _ H2 Hx)|].
+    split; [exact (C01.shx_member _ _ _ H3 Hx)|exact Sx].
+  - exists b2. split; [exact Hb2|]. split; [exact W2|].
+    exact (solve_of_rel o (pure_doc d) Hd neg b b2 Hw W2 R2).
 Qed.
 
 Lemma optimise_no_matrix_nested : forall o ord sw r (d : doc),
@@ -1847,19 +2019,16 @@ Proof.
     apply andb_prop in Hin2. destruct Hin2 as [_ Hsb].
     set (ng := body_neg (e, ids)) in *.
     assert (Hbody : forall kv, In kv ids ->
-              exists b2, shake ord (snd kv) = Ok b2 /\ wf_body b2 = true /\
+              exists b2, entries (shake ord) (snd kv) = Ok b2 /\ wf_body b2 = true /\
                 (solve_body o b2 (pure_doc d) = Ok T <-> solve_body o (snd kv) (pure_doc d) = Ok T) /\
                 (ng = true -> solve_body o b2 (pure_doc d) = solve_body o (snd kv) (pure_doc d))).
     { intros kv Hkv. pose proof (C01.forallb_In _ _ _ Hwb Hkv) as Hw. cbn beta in Hw.
       assert (Hin' : In (snd kv) (map snd ids)) by (apply in_map; exact Hkv).
       pose proof (C01.forallb_In _ _ _ Hinb Hin') as Hb. cbn beta in Hb.
       destruct (input_ok_split3 _ Hb) as [B2 [B3 B4]].
-      apply (shake_body_run o ord ng (snd kv) d Hperm Hw B2 B3 B4).
-      assert (Hin'' : In (fst kv, ok_or (shake0 (shake_fuel (snd kv)) (snd kv)) (snd kv))
-                         (map (fun kv => (fst kv, ok_or (shake0 (shake_fuel (snd kv)) (snd kv)) (snd kv))) ids)).
-      { apply (in_map (fun kv => (fst kv, ok_or (shake0 (shake_fuel (snd kv)) (snd kv)) (snd kv)))). exact Hkv. }
-      apply (C01.forallb_In _ _ _ Hsb Hin''). }
-    destruct (S1.map_ids_ok (shake ord) ids) as [ids2 Hids2].
+      apply (shake_entries_run o ord ng (snd kv) d Hperm Hw B2 B3 B4).
+      apply (C01.forallb_In _ _ _ Hsb Hkv). }
+    destruct (S1.map_ids_ok (entries (shake ord)) ids) as [ids2 Hids2].
     { intros kv Hkv. destruct (Hbody kv Hkv) as [b2 [Hb2 _]]. exists b2. exact Hb2. }
     pose proof (S1.map_ids_F2 _ _ _ Hids2) as HF.
     assert (HF' : Forall2 (fun kv kv' => fst kv' = fst kv /\
